@@ -346,13 +346,16 @@ def check_flatten(case, rec):
         raise Violation('flatten_dfs:row-count', '%d rows, tables hold %d' % (len(out), total))
     if col not in out.columns:
         raise Violation('flatten_dfs:no-label-column', col)
+    expected_cols = list(originals[0].columns) + ([col] if col not in originals[0].columns else [])
+    if not isinstance(out, pd.DataFrame) or sorted(map(str, out.columns)) != sorted(map(str, expected_cols)):
+        raise Violation('flatten_dfs:columns', 'columns %s, the tables have %s plus the label column' % (list(map(str, out.columns))[:12], list(map(str, originals[0].columns))[:12]))
     pos = 0
     for t, l in zip(originals, lab):
         block = out.iloc[pos:pos + len(t)]
         pos += len(t)
         got_l = block[col].values
         if len(t) and not all(g == l for g in got_l.tolist()):
-            raise Violation('flatten_dfs:label-of-origin', 'rows of the table labelled %r carry %r' % (l, sorted(set(got_l.tolist()))[:3]))
+            raise Violation('flatten_dfs:label-of-origin', 'rows of the table labelled %r carry %s' % (l, repr(got_l.tolist()[:3])))
         for c in t.columns:
             a = t[c].values
             b = block[c].values
